@@ -196,7 +196,7 @@ def run(ctx):
     if ctx.tier == 'thorough':
         combos += r.sample(list(itertools.permutations(names, 3)), 150)
     else:
-        combos = [c for c in combos if r.random() < 0.45] + [('A', 'B'), ('C', 'D'), ('E', 'I'), ('F', 'I'), ('B', 'A'), ('D', 'C'), ('C', 'H'), ('G', 'H'), ('A', 'H')]
+        combos = [c for c in combos if r.random() < 0.45] + [('A', 'B'), ('C', 'D'), ('E', 'I'), ('F', 'I'), ('B', 'A'), ('D', 'C'), ('C', 'H'), ('G', 'H'), ('A', 'H'), ('L', 'M'), ('M', 'L')]
     # the same kind of edit made twice on one pool thread before a target that must not show it (a reset that restores entries by reference only bites the second time)
     combos += [('A', 'A', 'B'), ('C', 'C', 'D'), ('E', 'E', 'I'), ('F', 'F', 'I'), ('H', 'H', 'G'), ('A', 'H', 'A', 'B'), ('C', 'E', 'C', 'E', 'D', 'I')]
     # the references are single-target runs in processes of their own: whatever an earlier scan left in module- or class-level state of THIS
